@@ -1689,6 +1689,19 @@ class DocutilsRenderer(RendererProtocol):
         # are unique within (and registered on) the parent document
         newdoc.ids = self.document.ids
         newdoc.id_counter = self.document.id_counter
+        # also share the footnote/citation registries,
+        # so that these are processed by the transforms of the parent document
+        for registry in (
+            "autofootnotes",
+            "autofootnote_refs",
+            "footnotes",
+            "footnote_refs",
+            "symbol_footnotes",
+            "symbol_footnote_refs",
+            "citations",
+            "citation_refs",
+        ):
+            setattr(newdoc, registry, getattr(self.document, registry))
         # pad the line numbers artificially so they offset with the fence block
         pseudosource = ("\n" * token_line(token)) + token.content
         # actually parse the rst into our document
